@@ -96,17 +96,16 @@ Theorem C18_postorder_sound : forall out fuel r l, postorder out fuel r = Some l
 Proof. exact postorder_is_dfs. Qed.
 Print Assumptions C18_postorder_sound.
 
+(* Reverse returns the list reversed (reverse post-order = Reverse(PostOrder)). *)
+Theorem C18_reverse_spec : forall xs, reverse xs = rev xs.
+Proof. exact reverse_spec. Qed.
+Print Assumptions C18_reverse_spec.
+
 Example C18_traversal_nonvacuous :
   let g := [[1; 2; 1]; [2; 0]; [2]; [0]]%N in
   preorder (g_out g) 5 0 = Some [0; 1; 2]%N /\ postorder (g_out g) 5 0 = Some [2; 1; 0]%N /\
   euler (g_out g) 5 0 = Some [Enter 0; Enter 1; Enter 2; Exit 2; Exit 1; Exit 0]%N.
 Proof. vm_compute. auto. Qed.
-
-(* ================= reachability closure used by the SCC checker ================= *)
-Theorem C18_reach_spec : forall out fuel r s, reach out fuel r = Some s ->
-  forall v, ns_mem v s = true <-> path out r v.
-Proof. exact reach_spec. Qed.
-Print Assumptions C18_reach_spec.
 
 (* ================= SCC ================= *)
 From Coq Require Import FMapPositive QArith Sorted.
@@ -255,21 +254,14 @@ Example C18_dot_nonvacuous :
 Proof. vm_compute. auto. Qed.
 
 (* ================= the model of Tarjan's algorithm as written (scc.go:35-166) ================= *)
-From MM Require Import Proofs.TarjanPartial.
+From MM Require Import Proofs.TarjanPartial Proofs.Tarjan Proofs.TarjanCorrect.
 
-(* It never runs out of fuel (fuel = number of nodes + 1) ... *)
-Theorem C18_tarjan_terminates : forall g edges, g_wf g -> exists res, tarjan g edges = Some res.
-Proof. exact tarjan_terminates. Qed.
-Print Assumptions C18_tarjan_terminates.
-
-(* ... and what it returns is a partition of the nodes into non-empty components, with one
-   out-list per component.  (That the components are the strongly connected ones, in reverse
-   topological order, is certified per observed output by the checker above; the statement
-   for all graphs is the stretch theorem tarjan_sound, see meta/C18.json.) *)
-Theorem C18_tarjan_partition : forall g edges comps outs, g_wf g ->
-  tarjan g edges = Some (comps, outs) ->
-  Permutation (concat comps) (nodes_upto (g_n g)) /\
-  (forall l, In l comps -> l <> []) /\
-  length outs = length comps.
-Proof. exact tarjan_partition. Qed.
-Print Assumptions C18_tarjan_partition.
+(* For EVERY well-formed graph the model of SCC() terminates (fuel = number of nodes + 1 is
+   never exhausted) and returns the strongly connected components in reverse topological
+   order, and with SCCEdges exactly the component edges.  The check compares every observed
+   Go result list for list with this model (and also certifies it with scc_ok). *)
+Theorem C18_tarjan_correct : forall g edges, g_wf g ->
+  exists comps outs, tarjan g edges = Some (comps, outs) /\
+    scc_spec g comps /\ (edges = true -> scc_edges_spec g comps outs).
+Proof. exact tarjan_correct. Qed.
+Print Assumptions C18_tarjan_correct.
